@@ -123,6 +123,11 @@ class FrontendRig:
         with self.database.create_scope():
             await self.dispatcher.on_client_disconnect(channel)
 
+    async def disconnect_channel(self, channel):
+        """The websocket behind `channel` closes (whether or not the dispatcher ever attached it to an engine id)."""
+        with self.database.create_scope():
+            await self.dispatcher.on_client_disconnect(channel)
+
     # ---------------------------------------------------------------- frontend pubsub side
     async def ws_subscribe(self, conn_id: str, topics: list[str]):
         """A frontend websocket `conn_id` subscribes to pubsub topics: the real notifier runs the registered
